@@ -186,6 +186,15 @@ def _metamorphic_case(rng, grid, data, shape, dx, x0, dim):
             k0, s0 = get_structure_factor(ScalarField(grid, data), smoothing=sm, wave_numbers=wn0, add_zero=True)
             if len(k0) != len(wn0) + 1 or k0[0] != 0 or s0[0] != 1 or not np.array_equal(k0[1:], wn0):
                 fails.append("smoothed variant: add_zero does not prepend (0, 1) when the requested wave numbers contain 0")
+            # the requested wave numbers in ANY order (descending, shuffled, with a repeated value): returned identically, and
+            # the value reported for a wave number does not depend on where in the request it stands
+            for order in (np.arange(len(wn))[::-1], rng.permutation(len(wn)), np.r_[np.arange(len(wn)), 2]):
+                wq = wn[order]
+                kq, sq = get_structure_factor(ScalarField(grid, data), smoothing=sm, wave_numbers=wq)
+                if not np.array_equal(kq, wq):
+                    fails.append("smoothed variant does not return exactly the requested wave numbers (request not ascending)")
+                elif np.max(np.abs(sq - ss[order])) > 1e-12 * max(1e-3, np.abs(ss).max()):
+                    fails.append("smoothed variant: the value at a requested wave number depends on its place in the request")
             for name, d2, g in (("constant", c * data, grid), ("translation", np.roll(data, sh, axis=a), grid), ("reflection", np.flip(data, axis=a), grid)):
                 _, s2 = get_structure_factor(ScalarField(g, d2), smoothing=sm, wave_numbers=wn)
                 if np.max(np.abs(s2 - ss)) > 1e-9 * max(1e-3, np.abs(ss).max()):
